@@ -76,6 +76,13 @@ def build():
                                                      (r'ConstrSet constrMask;', 'ConstrSet constrMask = CONSTRSET_ZERO;', 1)],
       extra_locals={})
     P(CS_C, 'CspSolver::solveRecursive')
+    # adding a constraint: constr.emplace_back is std::vector growth (outside the subset) and becomes the assumed stub ghost_constr_push
+    U.raw('int ghost_pushes, ghost_push_v1, ghost_push_v2, ghost_push_c;   /* number of constraints appended and the last one */\n')
+    U.stub('ghost_constr_push', 'void ghost_constr_push(int v1, int v2, int c)')
+    U.tr.declare('ghost_constr_push', None, 'ghost_constr_push', 'void', [('int', 'v1', False), ('int', 'v2', False), ('int', 'c', False)])
+    P(CS_C, 'CspSolver::addIneq', rules=[(r'std::swap\(v1, v2\);', '{ int ghost_t = v1; v1 = v2; v2 = ghost_t; }', 1),
+                                          (r'constr\.emplace_back\(v1, v2, offs\);', 'ghost_constr_push(v1, v2, offs);', 1)])
+    P(CS_H, 'CspSolver::addEq')
     # the consistency test of the backtracking search (inner loop of solveRecursive): from the copy of varToConstr[varNo] to the use of allValid
     fr = U.fragment(CS_C, 'CspSolver_solveRecursive_check', r'ConstrSet constrMask = varToConstr\[varNo\];', r'if \(allValid\) \{', within='CspSolver::solveRecursive',
                params=[('int', 'varNo', False), ('std::vector<int>', 'values', True)], ret='bool', cls='CspSolver', is_static=False, epilogue='\n    return allValid;\n')
@@ -314,6 +321,32 @@ CONTRACTS['CspSolver_solve_attach'] = {
 HARNESS += 'void h_attach(void) { struct CspSolver* s; havoc_ghosts(); CspSolver_solve_attach(s); CANARY_POINT; }\n'
 HARNESS += 'void h_sr_outer(void) { struct CspSolver* s; struct VecInt* v; int varNo; havoc_ghosts(); ghost_w = nondet_int(); ghost_v0 = nondet_int(); CspSolver_solveRecursive_outer(s, varNo, v); CANARY_POINT; }\n'
 HARNESS += 'void h_sr_check(void) { struct CspSolver* s; struct VecInt* v; int varNo; havoc_ghosts(); ghost_w = nondet_int(); CspSolver_solveRecursive_check(s, varNo, v); CANARY_POINT; }\n'
+CONTRACTS['ghost_constr_push'] = {'requires': ['0 <= ghost_pushes && ghost_pushes < 1000'], 'assigns': ['ghost_pushes', 'ghost_push_v1', 'ghost_push_v2', 'ghost_push_c'],
+                                  'ensures': ['ghost_pushes == __CPROVER_old(ghost_pushes) + 1', 'ghost_push_v1 == v1 && ghost_push_v2 == v2 && ghost_push_c == c']}
+SPEC += r'''
+int ghost_x1, ghost_x2;   /* arbitrary values of the two variables of a constraint being added */
+/* stored form: value(ghost_push_v1) <= value(ghost_push_v2) + ghost_push_c */
+'''
+CONTRACTS['CspSolver_addIneq'] = {
+    'requires': _SHAPE + ['0 <= v1 && v1 < self->domain.size && 0 <= v2 && v2 < self->domain.size', 'op == Oper_LE || op == Oper_GE', '-1000 <= offs && offs <= 1000',
+                          '0 <= ghost_pushes && ghost_pushes < 900', '-100 <= ghost_x1 && ghost_x1 <= 100 && -100 <= ghost_x2 && ghost_x2 <= 100', 'v1 == v2 ==> ghost_x1 == ghost_x2'],
+    'assigns': ['ghost_pushes', 'ghost_push_v1', 'ghost_push_v2', 'ghost_push_c'],
+    # exactly one constraint is appended, over the same two variables, and it means what was asked: for arbitrary values x1 of v1 and x2 of v2
+    # the stored inequality holds exactly when  x1 <= x2 + offs  (LE)  resp.  x1 >= x2 + offs  (GE)  holds
+    'ensures': ['ghost_pushes == __CPROVER_old(ghost_pushes) + 1',
+                '(ghost_push_v1 == v1 && ghost_push_v2 == v2) || (ghost_push_v1 == v2 && ghost_push_v2 == v1)', '-1000 <= ghost_push_c && ghost_push_c <= 1000',
+                '((ghost_push_v1 == v1 ? ghost_x1 : ghost_x2) <= (ghost_push_v2 == v2 ? ghost_x2 : ghost_x1) + ghost_push_c) == (op == Oper_LE ? ghost_x1 <= ghost_x2 + offs : ghost_x1 >= ghost_x2 + offs)'],
+}
+CONTRACTS['CspSolver_addEq'] = {
+    # (the conditions on the free ghost values x1, x2 are those of addIneq: they are asserted where addIneq is replaced by its contract)
+    'requires': _SHAPE + ['0 <= v1 && v1 < self->domain.size && 0 <= v2 && v2 < self->domain.size', '-1000 <= offs && offs <= 1000', '0 <= ghost_pushes && ghost_pushes < 800',
+                          '-100 <= ghost_x1 && ghost_x1 <= 100 && -100 <= ghost_x2 && ghost_x2 <= 100', 'v1 == v2 ==> ghost_x1 == ghost_x2'],
+    'assigns': ['ghost_pushes', 'ghost_push_v1', 'ghost_push_v2', 'ghost_push_c'],
+    # an equality is stored as two inequalities
+    'ensures': ['ghost_pushes == __CPROVER_old(ghost_pushes) + 2'],
+}
+HARNESS += 'void h_addIneq(void) { struct CspSolver* s; int a, b, op, o; havoc_ghosts(); ghost_pushes = nondet_int(); ghost_x1 = nondet_int(); ghost_x2 = nondet_int(); CspSolver_addIneq(s, a, op, b, o); CANARY_POINT; }\n'
+HARNESS += 'void h_addEq(void) { struct CspSolver* s; int a, b, o; havoc_ghosts(); ghost_pushes = nondet_int(); ghost_x1 = nondet_int(); ghost_x2 = nondet_int(); CspSolver_addEq(s, a, b, o); CANARY_POINT; }\n'
 for _f, _sig in (('makeEven', 'int v'), ('makeOdd', 'int v'), ('addMinVal', 'int v, int a'), ('addMaxVal', 'int v, int a')):
     decl = '; '.join(x.strip() for x in _sig.split(',')) + ';'
     args = ', '.join(x.strip().split()[-1] for x in _sig.split(','))
@@ -387,6 +420,8 @@ PROPERTIES = {'C20': [g.name for g in GROUPS]}
 # (SAT reasoning about symbolic shifts of the 64-bit domain words); the group is therefore NOT part of the claim.
 GROUPS.append(Group('solveRecursive_check', 'h_sr_check', enforce='CspSolver_solveRecursive_check', replace=('ConstrSet_empty', 'ConstrSet_getMinBit', 'ConstrSet_clearBit'),
                     loop_contracts=True, min_props=10, expect_loop_props=1, timeout=1800))
+GROUPS.append(Group('addIneq', 'h_addIneq', enforce='CspSolver_addIneq', replace=('ghost_constr_push',), min_props=5))
+GROUPS.append(Group('addEq', 'h_addEq', enforce='CspSolver_addEq', replace=('CspSolver_addIneq',), min_props=3))
 GROUPS.append(Group('solve_attach', 'h_attach', enforce='CspSolver_solve_attach', replace=('ConstrSet_setBit',), loop_contracts=True, min_props=5, expect_loop_props=1, timeout=1800))
 GROUPS.append(Group('solveRecursive', 'h_sr_outer', enforce='CspSolver_solveRecursive_outer',
                     replace=('CspSolver_solveRecursive', 'CspSolver_solveRecursive_check', 'CspSolver_getBitVal', 'Domain_empty', 'Domain_clearBit'),
@@ -407,6 +442,8 @@ MUTANTS = [
     dict(name='getBitVal_middle_small', file='lib/texelutillib/pg/cspsolver.cpp', pattern=r'for \(int b = 3; b >= 1; b--\)\n            if \(d.getBit\(b\)\)\n                return b;', repl='for (int b = 3; b >= 1; b--)\n            if (d.getBit(b))\n                return b - 1;', groups=['getBitVal']),
     dict(name='makeOdd_is_even', file='lib/texelutillib/pg/cspsolver.cpp', pattern=r'domain\[varNo\]\.removeEven\(\);', repl='domain[varNo].removeOdd();', groups=['makeOdd']),
     dict(name='setRange_order', file='lib/texelutillib/bitSet.hpp', pattern=r'removeSmaller\(minVal\);\n        removeLarger\(maxVal\);', repl='removeSmaller(maxVal);\n        removeLarger(minVal);', groups=['Domain_setRange']),
+    dict(name='addIneq_ge_sign', file='lib/texelutillib/pg/cspsolver.cpp', pattern=r'        std::swap\(v1, v2\);\n        offs = -offs;', repl='        std::swap(v1, v2);', groups=['addIneq']),
+    dict(name='addEq_one_direction', file='lib/texelutillib/pg/cspsolver.hpp', pattern=r'    addIneq\(v1, LE, v2, offs\);\n    addIneq\(v1, GE, v2, offs\);', repl='    addIneq(v1, LE, v2, offs);', groups=['addEq']),
     dict(name='sr_check_ge', file='lib/texelutillib/pg/cspsolver.cpp', pattern=r'if \(values\[c\.v1\] > values\[c\.v2\] \+ c\.c\) \{', repl='if (values[c.v1] >= values[c.v2] + c.c) {', groups=['solveRecursive_check']),
     dict(name='sr_check_skips_own_var', file='lib/texelutillib/pg/cspsolver.cpp', pattern=r'if \(c\.v1 <= varNo && c\.v2 <= varNo\) \{', repl='if (c.v1 < varNo && c.v2 <= varNo) {', groups=['solveRecursive_check']),
     dict(name='sr_early_success', file='lib/texelutillib/pg/cspsolver.cpp', pattern=r'if \(varNo == nValues - 1\)', repl='if (varNo >= nValues - 2)', groups=['solveRecursive']),
